@@ -319,6 +319,59 @@ func checkFileFaults(c *mon.Case, f *fileFixture) {
 			c.Sig(fmt.Sprintf("file|%s|kth|%s|%s", strings.Split(f.Name, "-")[0], cls, faultPos(k-1, maxLoads)), true)
 		}
 	}
+	// (4) a block stays unavailable; the reader is positioned inside (or just before) its span and
+	// asked again and again: every attempt has to end in the load error, none in end-of-file
+	seenLeaf := map[string]bool{}
+	for _, sp := range spans {
+		if !sp.Leaf || sp.Depth == 0 || sp.End <= sp.Start || seenLeaf[sp.Cid.KeyString()] {
+			continue
+		}
+		seenLeaf[sp.Cid.KeyString()] = true
+		if len(seenLeaf) > 12 && rr.Intn(3) != 0 {
+			continue
+		}
+		for _, pos := range []int64{sp.Start, (sp.Start + sp.End) / 2} {
+			st.ClearFaults()
+			st.Absent = map[string]bool{sp.Cid.KeyString(): true}
+			st.AbsentErr = store.ErrInjected
+			st.ResetLog()
+			rs := open()
+			if rs == nil {
+				return
+			}
+			if _, err := rs.Seek(pos, io.SeekStart); err != nil {
+				if !isInjected(err, 1) {
+					c.Violation("C12|file|other-error", "Seek(%d) on %s with a block unavailable: %v", pos, f.Name, err)
+				}
+				continue
+			}
+			at := pos
+			for attempt := 1; attempt <= 3; attempt++ {
+				var got []byte
+				var rerr error
+				if !c.Guard("repeated ReadAll with missing block", func() { got, rerr = io.ReadAll(rs) }) {
+					break
+				}
+				c.Count("reads_checked", 1)
+				c.Count("repeated_reads_after_error", 1)
+				rest := f.Content[min(int(at), len(f.Content)):]
+				if len(got) > len(rest) || !bytes.Equal(got, rest[:len(got)]) {
+					c.Violation("C12|file|wrong-bytes", "attempt %d to read %s from %d with the block at [%d,%d) unavailable returned %d bytes that are not the content there", attempt, f.Name, at, sp.Start, sp.End, len(got))
+					break
+				}
+				at += int64(len(got))
+				if rerr == nil {
+					c.Violation("C12|file|no-error", "attempt %d to read %s from %d with the block at [%d,%d) unavailable ended in end-of-file after %d bytes", attempt, f.Name, pos, sp.Start, sp.End, at-pos)
+					break
+				}
+				if !isInjected(rerr, 1) {
+					c.Violation("C12|file|other-error", "attempt %d on %s: error %T %v is not the injected load error", attempt, f.Name, rerr, rerr)
+					break
+				}
+			}
+		}
+	}
+	st.ClearFaults()
 }
 
 func checkDirFaults(c *mon.Case, d dirCase) {
@@ -375,6 +428,7 @@ func checkDirFaults(c *mon.Case, d dirCase) {
 	for _, n := range probes[:min(len(probes), 40)] {
 		probes = append(probes, n+"x")
 	}
+	planNo := 0
 	runPlan := func(what string, missing map[string]bool, kind int) {
 		st.ClearFaults()
 		st.Absent = missing
@@ -384,6 +438,22 @@ func checkDirFaults(c *mon.Case, d dirCase) {
 		if err != nil {
 			c.Violation("C12|reify", "%v", err)
 			return
+		}
+		// what the node was used for before must not matter: nothing, a Length() that could not
+		// complete, or a listing that skipped the unavailable shards
+		planNo++
+		switch planNo % 3 {
+		case 1:
+			c.Guard("Length with missing shard", func() { node.Length() })
+			c.Count("lookups_after_failed_length", 1)
+		case 2:
+			c.Guard("listing with missing shard", func() {
+				it := node.MapIterator()
+				for i := 0; !it.Done() && i < links+len(shards)+2; i++ {
+					it.Next()
+				}
+			})
+			c.Count("lookups_after_partial_listing", 1)
 		}
 		for _, name := range probes {
 			path, found, err := w.HamtLookupPath(root, name)
